@@ -277,6 +277,28 @@ def run_record(ops):
                     return rec('DER differs from DER of the model', history=hist, container='Sequence', op=k)
             except error.PyAsn1Error as e:
                 return rec('complete value cannot be encoded: %s' % str(e)[:100], history=hist, container='Sequence', op=k)
+            # == / != agree with equality of the dict models
+            model2 = dict(model)
+            if 'b' in model2:
+                del model2['b']
+            else:
+                model2['b'] = b'Q'
+            other = proto.clone()
+            for n_, x in model2.items():
+                other[n_] = x
+            try:
+                same_model = all((n_ in model) == (obj.getComponentByName(n_, default=None, instantiate=False) is not None and
+                                                  obj.getComponentByName(n_, default=None, instantiate=False).isValue)
+                                 for n_ in names)
+                if same_model and (not (obj == fresh) or (obj != fresh)):
+                    return rec('== says the value differs from an equal value built from the model', history=hist,
+                               container='Sequence', op=k)
+                if (obj == other) or not (obj != other):
+                    return rec('== says the value equals one with a different OPTIONAL member', history=hist,
+                               container='Sequence', op=k)
+            except error.PyAsn1Error as e:
+                return rec('comparing two record values raised PyAsn1Error: %s' % str(e)[:80], history=hist,
+                           container='Sequence', op='==')
     return None
 
 
